@@ -54,3 +54,5 @@ pub mod ast;
 pub mod asm;
 pub mod sim;
 pub mod err;
+#[cfg(endorpersand_lc3_ensemble_verif)]
+pub mod verif;
